@@ -38,6 +38,11 @@ def TIE(mod, *names):
 
 SWCOR = {c: TIE("SwCorollaries", *[n for n in ("gen_C01_roundtrip", "gen_C01_normal", "gen_C01_fast", "gen_C01_nocheck", "gen_C01_check", "gen_C01_total_normal", "gen_C01_total_fast", "gen_C01_total_roundtrip", "gen_C01_zero", "gen_C05_encode_meets_spec", "gen_C05_spec_unique", "gen_C05_decode_value", "gen_C05_fast_meets_spec", "gen_C05_fast_decode_value", "gen_C06_normal", "gen_C06_normal_iff", "gen_C06_fast", "gen_C06_fast_iff", "gen_C06_table_independent", "gen_C07_shape", "gen_C07_foreign", "gen_C07_subst", "gen_C07_insert", "gen_C07_delete", "gen_C07_decode_rejects", "gen_C07_encode_subst_rejected",) if n.startswith("gen_" + c)]) for c in ("C01", "C05", "C06", "C07")}
 TIE_SW = TIE("SwVt", "tie_set_vt") + TIE("SwEncode", "tie_encode") + TIE("SwDecode", "tie_decode")
+REPCOR = {c: TIE("RepCorollaries", *[n for n in ("gen_C10_total", "gen_C10_lookups", "gen_C09_clean", "gen_C09_clean_nocheck", "gen_C09_sorted_nodup", "gen_C09_check", "gen_C09_C10_summary", "gen_C08_single_subst_only", "gen_C08_single", "gen_C08_single_subst", "gen_C08_single_ins", "gen_C08_single_del", "gen_C08_single_generated", "gen_C08_multi", "gen_C08_multi'", "gen_C08_path_matching_sound", "gen_C08_path_matching_complete", "gen_C08_path_matching_iff", "gen_C08_path_matching_error", "gen_E2E_single_edit", "gen_E2E_repair_then_decode",) if n.startswith("gen_" + c) or (c == "C08" and n.startswith("gen_E2E"))])
+          for c in ("C08", "C09", "C10")}
+TIE_VIEWS = TIE("GzViews", "tie_obtain_vertices", "tie_accessor_to_latter_map", "tie_remove_useless",
+                "tie_latter_map_to_accessor_plain", "tie_latter_map_to_accessor_trim", "tie_obtain_leaf_vertices_acc",
+                "tie_obtain_leaf_vertices_map", "tie_obtain_leaf_vertices_bad")
 TIE_REP = TIE("SwRepair", "tie_repair_dna") + TIE("GzPath", "tie_path_matching")
 TIE_GZ = TIE("GzArith", "tie_obtain_latters", "tie_obtain_formers", "tie_get_complete_accessor")
 TIE_OPERATION = (TIE("OpAdd", "tie_calculus_addition") + TIE("OpSub", "tie_calculus_subtraction") +
@@ -58,7 +63,7 @@ PROPS = {
                 rule="filter grid (run x GC range x motifs, and user-defined table predicates) x k x threshold x start x "
                      "message x table x mode, plus the constructor grid and the threshold grid; non-trivial = a "
                      "non-empty strand was emitted / configuration accepted"),
-    "C03": dict(level="proof", theorems=T("C03", "C03_trimLoop", "C03_gfp", "C03_t1", "C03_holds", "C03_mono", "C03_latter_map", "C03_goodFrom", "C03_pure") + T("C03b", "C03_remove_useless"), gens=["C03"],
+    "C03": dict(level="proof", theorems=T("C03", "C03_trimLoop", "C03_gfp", "C03_t1", "C03_holds", "C03_mono", "C03_latter_map", "C03_goodFrom", "C03_pure") + T("C03b", "C03_remove_useless") + TIE_VIEWS[2:5], tie=[("graphized", ["remove_useless", "latter_map_to_accessor", "obtain_latters", "obtain_formers"])], gens=["C03", "GENGZ"],
                 rule="vertex masks (density classes, structured cycles; thorough: a seeded quarter of all 65 536 order-2 "
                      "masks) x threshold 1..4 x dtype; non-trivial = mask neither empty nor full and at least one "
                      "vertex removed"),
@@ -75,13 +80,13 @@ PROPS = {
                                           "C07_decode_rejects") + TIE_SW[:1] + TIE_SW[2:] + SWCOR["C07"], tie=[("spiderweb", ["set_vt", "decode"]), ("operation", ["number_to_dna"])], gens=["C07", "GENSW"],
                 rule="all strands up to a length bound x check lengths x all single edits, plus long random strands "
                      "and check lengths up to 200; non-trivial = length >= 2 with at least one ascent"),
-    "C08": dict(level="proof", theorems=T("C08", "C08_single", "C08_single_subst", "C08_multi", "C08_single_subst_only", "C08_single_ins", "C08_single_del") + T("C09", "C09_clean") + T("EndToEnd", "E2E_single_edit", "E2E_repair_then_decode") + T("C08b", "C08_path_matching_sound", "C08_path_matching_complete", "C08_path_matching_error") + TIE_REP, tie=[("spiderweb", ["repair_dna", "set_vt"]), ("graphized", ["path_matching"])], gens=["C08", "GENSW"],
+    "C08": dict(level="proof", theorems=T("C08", "C08_single", "C08_single_subst", "C08_multi", "C08_single_subst_only", "C08_single_ins", "C08_single_del") + T("C09", "C09_clean") + T("EndToEnd", "E2E_single_edit", "E2E_repair_then_decode") + T("C08b", "C08_path_matching_sound", "C08_path_matching_complete", "C08_path_matching_error") + TIE_REP + REPCOR["C08"], tie=[("spiderweb", ["repair_dna", "set_vt"]), ("graphized", ["path_matching"])], gens=["C08", "GENSW"],
                 rule="generated graphs x walks x (all single interior edits | spaced multi-edit sets) x check x indel; "
                      "non-trivial = at least one detection"),
-    "C09": dict(level="proof", theorems=T("C09", "C09_clean", "C09_sorted_nodup", "C09_check") + TIE_REP, tie=[("spiderweb", ["repair_dna", "set_vt"]), ("graphized", ["path_matching"])], gens=["C09", "GENSW"],
+    "C09": dict(level="proof", theorems=T("C09", "C09_clean", "C09_sorted_nodup", "C09_check") + TIE_REP + REPCOR["C09"], tie=[("spiderweb", ["repair_dna", "set_vt"]), ("graphized", ["path_matching"])], gens=["C09", "GENSW"],
                 rule="walks / corrupted / random strings x graphs x check absent/right/wrong x indel x heap limits; "
                      "non-trivial = a detection happened or the strand is a clean walk"),
-    "C10": dict(level="proof", theorems=T("C10", "C10_total", "C10_scan_terminates", "C10_lookups") + TIE_REP, tie=[("spiderweb", ["repair_dna"]), ("graphized", ["path_matching"])], gens=["C10", "GENSW"],
+    "C10": dict(level="proof", theorems=T("C10", "C10_total", "C10_scan_terminates", "C10_lookups") + TIE_REP + REPCOR["C10"], tie=[("spiderweb", ["repair_dna"]), ("graphized", ["path_matching"])], gens=["C10", "GENSW"],
                 rule="ACGT strings >= one window (bad first symbol, error in last window, random, heavily edited) x "
                      "graphs x options under a look-up budget; non-trivial = at least one detection"),
     "C11": dict(level="proof", theorems=T("C11", "C11_mask", "C11_valid_graph"), gens=["C11"],
@@ -101,7 +106,7 @@ PROPS = {
                 rule="all vertices for k up to a bound, sampled up to k = 12; non-trivial = k >= 2"),
     "C14": dict(level="proof", theorems=T("C14", "C14_latter_map_roundtrip", "C14_matrix_roundtrip",
                                           "C14_latter_map_content", "C14_matrix_content", "C14_vertices", "C14_leaves",
-                                          "C14_illegal_matrix"), gens=["C14"],
+                                          "C14_illegal_matrix") + TIE_VIEWS, tie=[("graphized", ["obtain_vertices", "accessor_to_latter_map", "latter_map_to_accessor", "obtain_leaf_vertices", "obtain_latters"])], gens=["C14", "GENGZ"],
                 rule="arbitrary arc subsets (not only induced ones) x all converters, leaf queries, illegal single-arc "
                      "matrices; non-trivial = k >= 2 with live and dead columns",
                 assumptions=["adjacency_matrix_to_accessor decides legality with list(set|set) != ref, which relies on "
